@@ -261,6 +261,26 @@ Definition must_call : list (string * string) :=
     ("CodeHolder::init", "CodeHolder_add_text_section");
     ("BaseRAPass::run_on_function", "BaseRAPass::on_init");
     ("BaseRAPass::run", "BaseRAPass::run_on_function");
+    (* the shape of the emitters' event handlers that the node-list model (BuilderDirty.recycled_state: clear_all + init_section)
+       and the lifecycle model (emitter_cleared) assume *)
+    ("BaseBuilder::on_reinit", "BaseBuilder_clear_all");
+    ("BaseBuilder::on_reinit", "BaseBuilder_init_section");
+    ("BaseBuilder::on_reinit", "BaseBuilder_delete_passes");
+    ("BaseBuilder::on_detach", "BaseBuilder_clear_all");
+    ("BaseBuilder::on_detach", "BaseBuilder_delete_passes");
+    ("BaseBuilder::on_attach", "BaseBuilder_init_section");
+    ("BaseCompiler::on_detach", "BaseCompiler_clear");
+    ("BaseCompiler::on_reinit", "BaseCompiler_clear");
+    ("BaseCompiler::on_reinit", "BaseBuilder::on_reinit");
+    ("BaseAssembler::on_attach", "BaseAssembler_initSection");
+    ("BaseAssembler::on_reinit", "BaseAssembler_initSection");
+    ("BaseAssembler::on_reinit", "BaseEmitter::on_reinit");
+    ("BaseBuilder::on_reinit", "BaseEmitter::on_reinit");
+    ("CodeHolder::reset", "CodeHolder_reset_sections_and_containers");
+    ("CodeHolder::reinit", "CodeHolder_reset_sections_and_containers");
+    (* per-function cleanup of the nodes: RAInst / RABlock pass data lives in the pass arena that run_on_function resets
+       (/repo a3de2f7 = fixes/C16-ra-pass-data.patch; a finalize() after a failed finalize() followed the dangling pointers) *)
+    ("BaseRAPass::run_on_function", "BaseNode::reset_pass_data");
     ("x86::Assembler::on_detach", "BaseAssembler::on_detach");
     ("a64::Assembler::on_detach", "BaseAssembler::on_detach");
     ("x86::Builder::on_detach", "BaseBuilder::on_detach");
@@ -382,6 +402,16 @@ Definition hygiene (cs : list class_decl) (fs : list func_decl) : bool :=
                        && mem (p_field p) (fields_of cs (p_class p))) persistent
   && forallb (fun s => mem (sp_field s) (fields_of cs (sp_class s))) specials
   && forallb (fun cc => mem (snd cc) (calls_of fs (fst cc))) must_call.
+
+(* the closure computed for a FollowAll root is really closed under the extracted call edges (so the fuel sufficed and no reachable
+   extracted function was lost): checked on the data of every run *)
+Definition closedb (fs : list func_decl) (l : list string) : bool :=
+  forallb (fun n => forallb (fun c => negb (func_exists fs c) || mem c l) (calls_of fs n)) l.
+Definition reach_closed (fs : list func_decl) : bool :=
+  forallb (fun r => forallb (fun rt => match rt_follow rt with
+                                       | FollowAll => let l := root_funcs fs rt in mem (rt_fn rt) l && closedb fs l
+                                       | _ => true
+                                       end) (r_roots r)) routes.
 
 Definition check_all (cs : list class_decl) (fs : list func_decl) : bool :=
   forallb (check_route cs fs) routes && hygiene cs fs.
